@@ -297,8 +297,8 @@ def gen_c17(tier, rng):
     ll = []
     for c in cases:
         if "rand-hist" in c.tags or "exh-hist1" in c.tags or "exh-hist2" in c.tags or (tier != "quick" and rng.random() < 0.1):
-            if any(" null" in o for o in c.ops):
-                continue
+            if any(" null" in o or " feedhuge " in o for o in c.ops):
+                continue            # (the low-level model has no operation for these; a script must not mix the two decoder states)
             ops = [o.replace(" feed ", " feedll ").replace(" pending", " pendingll") for o in c.ops]
             ll.append(Case("c17ll", ops, nontrivial=c.nontrivial, tags=("ll",) + tuple(c.tags)))
     return cases + ll
